@@ -288,7 +288,14 @@ def build_steps(rng, recs, delim, queries, slot=0, p_incremental=0.35):
         # another converter lives in the same process, with the same strings meaning something else (the prefixes
         # rotated over the records), and is asked the same questions first: answers must come from the converter
         # asked, not from anything keyed by the strings alone
-        rot = [dict(r, p=recs[(i + 1) % len(recs)]["p"], ps=recs[(i + 1) % len(recs)]["ps"]) for i, r in enumerate(recs)]
+        nxt = lambda i: recs[(i + 1) % len(recs)]
+        how = rng.choice(["names", "synonyms", "uri-synonyms"])
+        if how == "names":
+            rot = [dict(r, p=nxt(i)["p"], ps=nxt(i)["ps"]) for i, r in enumerate(recs)]
+        elif how == "synonyms":      # every synonym stays known, under another canonical prefix
+            rot = [dict(r, ps=nxt(i)["ps"]) for i, r in enumerate(recs)]
+        else:                        # every URI-prefix synonym stays known, as a synonym of another record
+            rot = [dict(r, us=nxt(i)["us"]) for i, r in enumerate(recs)]
         decoy = [{"op": "init", "dst": slot + 70, "records": rot, "delim": d}] + \
                 [dict(st, c=slot + 70) for st in queries if st.get("op") == "q"]
         sfx += "+decoy"
